@@ -238,10 +238,16 @@ func HexRev(b [32]byte) string {
 // WorkUnit is the real work of abstract work class 1: 2^233.
 var WorkUnit = new(big.Int).Lsh(big.NewInt(1), 233)
 
+// CurUnit is the real work of abstract work class 1 in the behaviour being replayed (see Concretise: histories made of
+// class-1 headers only are also run at other magnitudes of work).
+var CurUnit = WorkUnit
+
 // GenesisWork of regtest (bits 0x207fffff) = 2.
-func GenesisWork(p *chaincfg.Params) *big.Int {
-	// floor(2^256 / (target+1)) computed here with math/big from the compact form, independently of domains.
-	bits := p.GenesisBlock.Header.Bits
+func GenesisWork(p *chaincfg.Params) *big.Int { return WorkOfBits(p.GenesisBlock.Header.Bits) }
+
+// WorkOfBits is floor(2^256 / (target+1)) for a positive compact target.
+func WorkOfBits(bits uint32) *big.Int {
+	// computed here with math/big from the compact form, independently of domains.
 	mant := int64(bits & 0x007fffff)
 	exp := uint(bits >> 24)
 	t := big.NewInt(mant)
